@@ -577,9 +577,254 @@ class Translator:
         return "\n".join(self.out) + "\n"
 
 
+# ======================================================================================================================
+# Second translation scheme: selected *functions* whose parameters / locals are mutated (dicts of builders), with `for`
+# loops.  A function that mutates a parameter returns the new value of that parameter next to its result.
+
+HINTS["acc_plan"] = {
+    # src/sim_services/__init__.py — only the four functions that build the register access plan are translated
+    "select": ["_add_rd_access", "_add_wr_access", "_add_access", "_build_acc_plan"],
+    "imports": ["ProcSim.Gen.RegAccess"],
+    "opens": ["ProcSim.Gen.reg_access"],
+    # register identifiers are arbitrary hashable objects compared by equality: a type parameter
+    "prelude": [
+        "variable {Reg : Type} [DecidableEq Reg]",
+        "",
+        "/-- the two attributes of `program_defs.HwInstruction` the plan builder reads (`sources` after its converter) -/",
+        "structure HwInstruction (Reg : Type) where",
+        "  sources : List Reg",
+        "  destination : Reg",
+    ],
+    "types": {   # (function, parameter or local) -> Lean type
+        ("_add_rd_access", "instr"): "Nat", ("_add_rd_access", "builders"): "PyDict Reg RegAccQBuilder",
+        ("_add_rd_access", "registers"): "List Reg",
+        ("_add_wr_access", "instr"): "Nat", ("_add_wr_access", "builder"): "RegAccQBuilder",
+        ("_add_access", "instr"): "HwInstruction Reg", ("_add_access", "instr_index"): "Nat",
+        ("_add_access", "builders"): "PyDict Reg RegAccQBuilder",
+        ("_build_acc_plan", "program"): "List (Nat × HwInstruction Reg)",
+        ("_build_acc_plan", "builders"): "PyDict Reg RegAccQBuilder",
+    },
+    "ret": {"_add_rd_access": "Unit", "_add_wr_access": "Unit", "_add_access": "Unit",
+            "_build_acc_plan": "PyDict Reg RegAccessQueue"},
+    "class_of": {"RegAccQBuilder": "reg_access"},     # classes translated in another module
+}
+MODULES["acc_plan"] = "src/sim_services/__init__.py"
+
+
+class FuncTranslator:
+    def __init__(self, mod: str, src: str, repo: str):
+        self.mod, self.h = mod, HINTS[mod]
+        tree = ast.parse(src)
+        self.funcs = {n.name: n for n in tree.body if isinstance(n, ast.FunctionDef) and n.name in self.h["select"]}
+        missing = [f for f in self.h["select"] if f not in self.funcs]
+        if missing:
+            raise Unsupported(None, f"selected functions not found: {missing}")
+        # translators of the modules whose classes are used (to know which of their methods mutate)
+        self.ext = {}
+        for cls, m in self.h["class_of"].items():
+            self.ext[cls] = Translator(m, open(os.path.join(repo, MODULES[m]), encoding="utf-8").read())
+        self.mut_params = {f: self.find_mut_params(f, ()) for f in self.funcs}
+
+    # -------- which parameters does a function mutate (through method calls or calls of other selected functions)
+    def ty(self, fn, name):
+        t = self.h["types"].get((fn, name))
+        if t is None:
+            raise Unsupported(self.funcs[fn], f"no type for {fn}.{name}")
+        return t
+
+    def elem_class(self, fn, root):
+        t = self.ty(fn, root)
+        for cls in self.h["class_of"]:
+            if t == cls or t.endswith(" " + cls):
+                return cls
+        return None
+
+    def root_of(self, e):
+        """`r` or `r[key]` -> (r, key expression | None)"""
+        if isinstance(e, ast.Name):
+            return e.id, None
+        if isinstance(e, ast.Subscript) and isinstance(e.value, ast.Name):
+            return e.value.id, e.slice
+        return None, None
+
+    def find_mut_params(self, fn, stack):
+        if fn in stack:
+            raise Unsupported(self.funcs[fn], "recursive functions")
+        f = self.funcs[fn]
+        params = [a.arg for a in f.args.args]
+        mut = set()
+        for node in ast.walk(f):
+            if isinstance(node, ast.Expr) and isinstance(node.value, ast.Call):
+                c = node.value
+                if isinstance(c.func, ast.Attribute):
+                    r, _ = self.root_of(c.func.value)
+                    if r in params:
+                        cls = self.elem_class(fn, r)
+                        if cls and self.ext[cls].mutating(self.ext[cls].classes[cls], c.func.attr):
+                            mut.add(r)
+                elif isinstance(c.func, ast.Name) and c.func.id in self.funcs:
+                    callee = c.func.id
+                    cm = self.find_mut_params(callee, stack + (fn,))
+                    cparams = [a.arg for a in self.funcs[callee].args.args]
+                    for a, pn in zip(c.args, cparams):
+                        if pn in cm:
+                            r, _ = self.root_of(a)
+                            if r in params:
+                                mut.add(r)
+        return [p for p in params if p in mut]
+
+    # -------- expressions (pure)
+    def expr(self, e):
+        if isinstance(e, ast.Name):
+            return e.id
+        if isinstance(e, ast.Attribute):
+            if isinstance(e.value, ast.Name) and e.value.id in ("AccessType",):
+                return f"{e.value.id}.{e.attr}"
+            return f"({self.expr(e.value)}).{e.attr}"
+        if isinstance(e, ast.Constant) and isinstance(e.value, int) and not isinstance(e.value, bool) and e.value >= 0:
+            return str(e.value)
+        raise Unsupported(e, f"expression {ast.unparse(e)}")
+
+    # -------- a call that mutates `root` or `root[key]`: lines computing the new root
+    def mutate(self, fn, root, key, call_fmt, ind):
+        """call_fmt: Lean text with {v} for the current value of the mutated object, evaluating to PyM (_ × newvalue)"""
+        if key is None:
+            return [f"{ind}{root} := (← {call_fmt.format(v=root)}).2"]
+        k = self.expr(key)
+        return [f"{ind}{root} ← (do",
+                f"{ind}  let (v1, d1) ← PyDict.getItem {root} ({k})",
+                f"{ind}  let v1' := (← {call_fmt.format(v='v1')}).2",
+                f"{ind}  pure (PyDict.setItem d1 ({k}) v1'))"]
+
+    def stmts(self, fn, body, roots, ind):
+        out = []
+        for st in body:
+            if isinstance(st, ast.Expr) and isinstance(st.value, ast.Constant) and isinstance(st.value.value, str):
+                continue
+            if isinstance(st, ast.AnnAssign) and isinstance(st.target, ast.Name) and isinstance(st.value, ast.Call) \
+                    and ast.unparse(st.value.func) == "defaultdict" and len(st.value.args) == 1 \
+                    and isinstance(st.value.args[0], ast.Name) and st.value.args[0].id in self.h["class_of"]:
+                name, cls = st.target.id, st.value.args[0].id
+                out.append(f"{ind}let mut {name} : {self.ty(fn, name)} := PyDict.emptyDefault ({cls}.new)")
+                roots.append(name)
+                continue
+            if isinstance(st, ast.For) and not st.orelse and isinstance(st.iter, ast.Name):
+                if len(roots) != 1:
+                    raise Unsupported(st, "a loop needs exactly one mutable object in scope")
+                root = roots[0]
+                if isinstance(st.target, ast.Name):
+                    pat = st.target.id
+                elif isinstance(st.target, ast.Tuple) and all(isinstance(t, ast.Name) for t in st.target.elts):
+                    pat = "(" + ", ".join(t.id for t in st.target.elts) + ")"
+                else:
+                    raise Unsupported(st, "loop target")
+                out.append(f"{ind}{root} ← pyFor {st.iter.id} {root} (fun {pat} {root} => do")
+                out.append(f"{ind}  let mut {root} := {root}")
+                out += self.stmts(fn, st.body, roots, ind + "  ")
+                out.append(f"{ind}  return {root})")
+                continue
+            if isinstance(st, ast.Expr) and isinstance(st.value, ast.Call) and not st.value.keywords:
+                c = st.value
+                if isinstance(c.func, ast.Attribute):                     # root[.key].method(args) of an external class
+                    root, key = self.root_of(c.func.value)
+                    if root not in roots:
+                        raise Unsupported(st, f"method call on {ast.unparse(c.func.value)}")
+                    cls = self.elem_class(fn, root)
+                    if not cls or c.func.attr not in self.ext[cls].classes[cls].methods:
+                        raise Unsupported(st, f"unknown method {c.func.attr}")
+                    if not self.ext[cls].mutating(self.ext[cls].classes[cls], c.func.attr):
+                        raise Unsupported(st, "non-mutating method call as a statement")
+                    args = " ".join(f"({self.expr(a)})" for a in c.args)
+                    out += self.mutate(fn, root, key, f"{cls}.{c.func.attr} {{v}} {args}", ind)
+                    continue
+                if isinstance(c.func, ast.Name) and c.func.id in self.funcs:
+                    callee = c.func.id
+                    cparams = [a.arg for a in self.funcs[callee].args.args]
+                    cm = self.mut_params[callee]
+                    if len(cm) != 1 or len(c.args) != len(cparams):
+                        raise Unsupported(st, "call of a function mutating other than exactly one parameter")
+                    pos = cparams.index(cm[0])
+                    root, key = self.root_of(c.args[pos])
+                    if root not in roots:
+                        raise Unsupported(st, "mutated argument is not a mutable object in scope")
+                    args = " ".join("{v}" if i == pos else f"({self.expr(a)})" for i, a in enumerate(c.args))
+                    out += self.mutate(fn, root, key, f"{callee} {args}", ind)
+                    continue
+            if isinstance(st, ast.Return) and isinstance(st.value, ast.DictComp):
+                dc = st.value
+                g = dc.generators[0]
+                ok = (len(dc.generators) == 1 and not g.ifs and isinstance(g.target, ast.Tuple) and len(g.target.elts) == 2
+                      and all(isinstance(t, ast.Name) for t in g.target.elts) and isinstance(g.iter, ast.Call)
+                      and isinstance(g.iter.func, ast.Attribute) and g.iter.func.attr == "items" and not g.iter.args
+                      and isinstance(g.iter.func.value, ast.Name) and isinstance(dc.key, ast.Name)
+                      and dc.key.id == g.target.elts[0].id and isinstance(dc.value, ast.Call)
+                      and isinstance(dc.value.func, ast.Attribute) and isinstance(dc.value.func.value, ast.Name)
+                      and dc.value.func.value.id == g.target.elts[1].id and not dc.value.args)
+                if not ok:
+                    raise Unsupported(st, "dict comprehension other than {k: v.m() for k, v in d.items()}")
+                d, kname, vname, m = g.iter.func.value.id, g.target.elts[0].id, g.target.elts[1].id, dc.value.func.attr
+                cls = self.elem_class(fn, d)
+                if not cls or m not in self.ext[cls].classes[cls].methods or self.ext[cls].mutating(self.ext[cls].classes[cls], m):
+                    raise Unsupported(st, f"method {m} in the dict comprehension")
+                out.append(f"{ind}return (← PyDict.mapValsM {d} (fun {kname} {vname} => {cls}.{m} {vname}))")
+                continue
+            raise Unsupported(st, f"statement {type(st).__name__}: {ast.unparse(st)[:60]}")
+        return out
+
+    def emit(self, fn):
+        f = self.funcs[fn]
+        a = f.args
+        if a.vararg or a.kwarg or a.kwonlyargs or a.defaults or a.posonlyargs:
+            raise Unsupported(f, "parameter kinds")
+        params = [p.arg for p in a.args]
+        mut = self.mut_params[fn]
+        if len(mut) > 1:
+            raise Unsupported(f, "more than one mutated parameter")
+        rt = self.h["ret"][fn]
+        full = f"{rt} × {self.ty(fn, mut[0])}" if mut else rt
+        ps = " ".join(f"({p} : {self.ty(fn, p)})" for p in params)
+        out = [f"/-- `{fn}`{' — mutates `' + mut[0] + '`: returns its new value' if mut else ''} -/",
+               f"def {fn} {ps} : PyM ({full}) := do"]
+        roots = list(mut)
+        for r in roots:
+            out.append(f"  let mut {r} := {r}")
+        body = self.stmts(fn, f.body, roots, "  ")
+        out += body
+        if not (f.body and isinstance(f.body[-1], ast.Return)):
+            if rt != "Unit":
+                raise Unsupported(f, "falls off the end but does not return None")
+            out.append(f"  return ((), {mut[0]})" if mut else "  return ()")
+        return out + [""]
+
+    def translate(self) -> str:
+        out = [f"import ProcSim.PyLite"] + [f"import {m}" for m in self.h["imports"]]
+        out += [f"/-! GENERATED by checks/py2lean.py from {MODULES[self.mod]} (functions {', '.join(self.h['select'])}) — do not edit.",
+                "Regenerated and re-checked against the equivalence theorems on every check run. -/",
+                f"namespace ProcSim.Gen.{self.mod}", "open PyLite"] + [f"open {o}" for o in self.h["opens"]] + [""]
+        out += self.h["prelude"] + [""]
+        order = []
+
+        def visit(fn, stack=()):
+            if fn in order:
+                return
+            for node in ast.walk(self.funcs[fn]):
+                if isinstance(node, ast.Call) and isinstance(node.func, ast.Name) and node.func.id in self.funcs and node.func.id != fn:
+                    visit(node.func.id, stack + (fn,))
+            order.append(fn)
+
+        for fn in self.h["select"]:
+            visit(fn)
+        for fn in order:
+            out += self.emit(fn)
+        out.append(f"end ProcSim.Gen.{self.mod}")
+        return "\n".join(out) + "\n"
+
+
 def generate(mod: str, repo: str = "/repo") -> str:
     path = os.path.join(repo, MODULES[mod])
     src = open(path, encoding="utf-8").read()
+    if "select" in HINTS[mod]:
+        return FuncTranslator(mod, src, repo).translate()
     digest = hashlib.sha256(ast.dump(ast.parse(src), include_attributes=False).encode()).hexdigest()[:16]
     return Translator(mod, src).translate(digest)
 
